@@ -378,7 +378,21 @@ class Renderer:
                     inner = "{" + inner + "}"
                 return ".%s(%s)" % (self.nm(p["name"]), inner)
             s.append("(" + ", ".join(hdr(p) for p in m["ports"]) + ");\n")
+            grouped = set()
+            if self.cfg.get("group_decls"):
+                # one declaration naming several ports:  input [3:0] a, b, c;
+                plain = [p for p in m["ports"] if not (p.get("alias") or p.get("alias_wide") or p.get("alias_bits"))]
+                groups = {}
+                for p in plain:
+                    groups.setdefault((p["dir"], p["width"]), []).append(p)
+                for (dr, wd), ps in groups.items():
+                    if len(ps) > 1:
+                        s.append("  %s %s%s;\n" % (dr, (self.rng_(wd - 1, 0) + " ") if wd > 1 else "",
+                                                   (self.sp() + "," + self.sp()).join(self.nm(p["name"]) for p in ps)))
+                        grouped.update(id(p) for p in ps)
             for p in m["ports"]:
+                if id(p) in grouped:
+                    continue
                 if p.get("alias"):
                     for x in p["alias"]:
                         s.append("  %s %s;\n" % (p["dir"], self.nm(x)))
